@@ -310,7 +310,8 @@ def run_suites(pid: str, suites: List[Suite], tag: str) -> Tuple[List[Tuple[Suit
 def check(pid: str, tier: str, seed: int) -> int:
     t0 = time.time()
     mod = load_mod(pid)
-    coqio.clean_corr(pid)
+    run_tag = f"{tier}{os.getpid()}"           # concurrent runs (even of the same property) never share case files
+    coqio.clean_stale()
     problems: List[Dict[str, Any]] = []     # broken proofs / pins / correspondence (no concrete input yet)
     violations: List[Dict[str, Any]] = []   # concrete failing inputs (unlisted)
     known_lines: List[str] = []
@@ -338,7 +339,7 @@ def check(pid: str, tier: str, seed: int) -> int:
             problems.append({"kind": "broken-proof", "theorem_or_suite": pf,
                              "what": "does not build: " + ", ".join(b["failed"]) + "\n" + b["log"][-1500:]})
             continue
-        a = assumptions(pid + "_" + os.path.basename(pf)[:-2], pf, pf_names)
+        a = assumptions(pid + "_" + os.path.basename(pf)[:-2] + "_" + str(os.getpid()), pf, pf_names)
         if "__error__" in a:
             problems.append({"kind": "broken-proof", "theorem_or_suite": pf, "what": a["__error__"]})
             continue
@@ -387,7 +388,7 @@ def check(pid: str, tier: str, seed: int) -> int:
     for su in suites:
         for c in su.cases:
             c.suite = su.name
-    disagreements, stats = run_suites(pid, suites, tier)
+    disagreements, stats = run_suites(pid, suites, run_tag)
     for bs in stats["broken_shards"]:
         problems.append({"kind": "broken-correspondence", "theorem_or_suite": "coqc shard", "what": bs})
     all_cases = [c for su in suites for c in su.cases]
@@ -509,6 +510,7 @@ def check(pid: str, tier: str, seed: int) -> int:
     }
     os.makedirs(EVID, exist_ok=True)
     json.dump(ev, open(os.path.join(EVID, f"{pid}.json"), "w"), indent=1, default=str)
+    coqio.clean_corr(str(os.getpid()))
     log(f"{pid} {tier}: theorems {discharged}/{len(names)} checked, {len(all_cases)} cases "
         f"({len(nontrivial_keys)} distinct non-trivial), {len(disagreements)} disagreements, "
         f"{len(violations)} unlisted violations, {len(reproduced)} known findings, {ev['wall_s']}s -> exit {rc}")
